@@ -1263,6 +1263,9 @@ func entryDominates(head, u *ssa.BasicBlock) bool {
 		}
 		ifi, ok := id.Instrs[len(id.Instrs)-1].(*ssa.If)
 		if !ok {
+			if len(id.Succs) != 1 || id.Succs[0] != d {
+				return false
+			}
 			d = id
 			continue
 		}
@@ -1298,7 +1301,43 @@ func entryDominates(head, u *ssa.BasicBlock) bool {
 		if !isSize {
 			return false
 		}
+		// the guarded side leads to the use only through the loop: the use is not somewhere between the
+		// guard and the loop (a border initialisation that runs before the checking loop)
+		var sIn *ssa.BasicBlock
+		for _, sc := range id.Succs {
+			if sc == d || sc.Dominates(d) {
+				sIn = sc
+			}
+		}
+		if sIn == nil || reachesAvoiding(sIn, u, head) {
+			return false
+		}
+		// and the test does guard the loop: its other side does not get to the loop
+		for _, sc := range id.Succs {
+			if sc != sIn && reachesAvoiding(sc, head, id) {
+				return false
+			}
+		}
 		d = id
+	}
+	return false
+}
+
+// reachesAvoiding: to can be reached from from without entering the block avoid.
+func reachesAvoiding(from, to, avoid *ssa.BasicBlock) bool {
+	seen := map[*ssa.BasicBlock]bool{}
+	work := []*ssa.BasicBlock{from}
+	for len(work) > 0 {
+		x := work[0]
+		work = work[1:]
+		if x == avoid || seen[x] {
+			continue
+		}
+		seen[x] = true
+		if x == to {
+			return true
+		}
+		work = append(work, x.Succs...)
 	}
 	return false
 }
